@@ -65,6 +65,21 @@ ClosedOutside(runs) ==
 RunAt(runs, d) == runs[CHOOSE i \in DOMAIN runs : runs[i][1] <= d /\ d <= runs[i][2]]
 TileAtR(runs, t) == LET til == FromJ(RunAt(runs, t[1])[3]) IN TileAt(til, t[2] \div 60)
 
+\* Hint contract of machine M3 (MC_Iterator.SoundHint) on the jumps the real iterator made (hook ae52c2c): every day
+\* skipped by a jump <<a, b>> is one full-day period of the kind day a ends with. Diagnostic only: it tells whether a
+\* stream mismatch comes from an unsound "next possible change" hint and which jump it was.
+DayCovered(runs, d) == \E i \in DOMAIN runs : runs[i][1] <= d /\ d <= runs[i][2]
+LastKindR(runs, d) == LET til == FromJ(RunAt(runs, d)[3]) IN til[Len(til)].k
+SoundJump(runs, j) ==
+  \/ ~DayCovered(runs, j[1])
+  \/ \A i \in DOMAIN runs :
+        LET lo  == Max2(runs[i][1], j[1] + 1)
+            hi  == Min2(runs[i][2], j[2] - 1)
+            til == FromJ(runs[i][3])
+        IN lo > hi \/ (Len(til) = 1 /\ til[1].k = LastKindR(runs, j[1]))
+UnsoundJumps(e) == IF "jumps" \in DOMAIN e /\ "sched" \in DOMAIN e
+                   THEN SelectSeq(e.jumps, LAMBDA j : ~SoundJump(e.sched, j)) ELSE <<>>
+
 Shape(ivs) == [i \in DOMAIN ivs |-> <<ivs[i][1], ivs[i][2], ivs[i][3]>>]
 ShapeS(s)  == [i \in DOMAIN s |-> <<s[i].a, s[i].b, s[i].k>>]
 
@@ -130,10 +145,13 @@ Report(k) ==
       v == Verdict(e)
   IN /\ PrintT(<<"STAT", ToJson([id |-> e.id, v |-> v,
                                  n |-> IF "intervals" \in DOMAIN e THEN Len(e.intervals) ELSE 0,
-                                 runs |-> IF "sched" \in DOMAIN e THEN Len(e.sched) ELSE 0])>>)
+                                 runs |-> IF "sched" \in DOMAIN e THEN Len(e.sched) ELSE 0,
+                                 jumps |-> IF "jumps" \in DOMAIN e THEN Len(e.jumps) ELSE 0,
+                                 unsound |-> Len(UnsoundJumps(e))])>>)
      /\ (v \in {"ok", "unverified", "panic"} \/
          PrintT(<<"MISMATCH", ToJson([id |-> e.id, what |-> v,
-                    expected |-> IF e.what = "range" THEN ShapeS(StreamR(e.sched, e.from, e.to)) ELSE <<>>])>>))
+                    expected |-> IF e.what = "range" THEN ShapeS(StreamR(e.sched, e.from, e.to)) ELSE <<>>,
+                    unsound_jumps |-> UnsoundJumps(e)])>>))
 
 Init == l = 0
 Next == l < Len(Rec) /\ l' = l + 1 /\ Report(l + 1)
